@@ -128,7 +128,7 @@ pub fn run(run: &Run) {
     );
     run.assume("driver protocol: call until Ok(None), at most len/4+3 calls, applied identically to implementation and reference; message_max_len >= 65551 as the reader documents");
     run.regressions(&replay);
-    run.random("schedules", run.cases(40_000, 800_000), 0.2, strategy, check);
+    run.random("schedules", run.cases(60_000, 1_000_000), 0.2, strategy, check);
 }
 
 pub fn replay(_section: &str, case: &Json) -> Option<CheckResult> {
